@@ -298,7 +298,10 @@ def bilin_inv(
 
         H = (Fs - f) ** 2 + (Gs - g) ** 2
         # print t, H
-        if np.all(H < tol):
+        # Points that have converged are left alone,
+        # the answer for one point does not depend on the other points
+        todo = H >= tol
+        if not np.any(todo):
             break
 
         # Estimate Jacobi matrix
@@ -312,8 +315,8 @@ def bilin_inv(
         # incr = - np.dot(Jinv, [Fs-f, Gs-g])
         # x = x + incr[0], y = y + incr[1]
         det = Fx * Gy - Fy * Gx
-        x -= (Gy * (Fs - f) - Fy * (Gs - g)) / det
-        y -= (-Gx * (Fs - f) + Fx * (Gs - g)) / det
+        x -= np.where(todo, (Gy * (Fs - f) - Fy * (Gs - g)) / det, 0.0)
+        y -= np.where(todo, (-Gx * (Fs - f) + Fx * (Gs - g)) / det, 0.0)
 
     return x, y
 
